@@ -665,7 +665,8 @@ fn plain_names(d: &StructD) -> bool {
     nodup(&declared(d))
 }
 
-/// a non-skipped flattened struct without any active (non-skipped) leaf — the C16-F8 shape
+/// a non-skipped flattened struct without any active (non-skipped) leaf — the C16-F8 shape (fixed by /repo
+/// b2d6bfa; the tag is kept so that a regression is recognisable)
 fn has_inactive_flatten(d: &StructD) -> bool {
     d.fields.iter().any(|f| match &f.flatten {
         Some(i) => !f.skip && (declared(i).is_empty() || has_inactive_flatten(i)),
